@@ -106,6 +106,16 @@ def chain_is_hash(chain, names, fns, fn_text):
     return lname in names
 
 
+def sort_call(text):
+    """the text of `v.sort...( ... )` with blanks removed: the key of the sort is part of the site's description"""
+    i = text.find("(")
+    try:
+        j = match_close(text, i, "(", ")")
+    except Exception:
+        j = min(len(text) - 1, i + 80)
+    return re.sub(r"\s+", "", text[:j + 1])
+
+
 def classify(fn_text, rel, expr):
     after = fn_text[rel:]
     before = fn_text[max(0, rel - 260):rel]
@@ -114,8 +124,10 @@ def classify(fn_text, rel, expr):
     m = re.search(r"let\s+(?:mut\s+)?(\w+)\s*(?::[^=;]+)?=\s*[^;]*$", before, re.S)
     target = m.group(1) if m else None
     sort_re = r"\s*\.\s*sort(_by|_by_key|_unstable|_unstable_by|_unstable_by_key)?\s*\("
-    if target and re.search(r"\b" + re.escape(target) + sort_re, after[:400]):
-        return "sorted"
+    if target:
+        ms = re.search(r"\b" + re.escape(target) + sort_re, after[:400])
+        if ms:
+            return "sorted " + sort_call(after[ms.start():])
     if expr.startswith("for:"):
         # a loop that pushes into a vector which is sorted after the loop
         i = after.find("{")
@@ -127,8 +139,9 @@ def classify(fn_text, rel, expr):
             body, rest = after[i:j], after[j:j + 600]
             pushed = set(re.findall(r"\b(\w+)\s*\.\s*push\s*\(", body))
             for v in pushed:
-                if re.search(r"\b" + re.escape(v) + sort_re, rest):
-                    return "sorted"
+                ms = re.search(r"\b" + re.escape(v) + sort_re, rest)
+                if ms:
+                    return "sorted " + sort_call(rest[ms.start():])
             if re.search(r"\.\s*(extend|insert)\s*\(", body) and not pushed and "write!" not in body:
                 return "into-set"
             if pushed:
